@@ -517,14 +517,17 @@ def cmd_compile(args, out):
                     src = f.read()
                 import warnings
 
+                fname = it.get("filename", it["src"])
+                if PY2 and isinstance(fname, text_type):
+                    fname = fname.encode("utf-8")
                 with warnings.catch_warnings():
                     warnings.simplefilter("ignore")
                     if PY2:
-                        co = compile(src, it.get("filename", it["src"]), "exec")
+                        co = compile(src, fname, "exec")
                     else:
                         co = compile(
                             src,
-                            it.get("filename", it["src"]),
+                            fname,
                             "exec",
                             dont_inherit=True,
                             optimize=it.get("optimize", -1),
